@@ -192,6 +192,94 @@ func init() {
 		it = append(it, after("fragmentation", "VerifC19_Encode", []int{8, 2, 3}, pc("VerifC19_InvalidArgs", 4, 1)))
 		return it
 	})
+	// second wave: every remaining property whose code could plausibly keep state between calls
+	addItems("C06", func(tier string) []Item {
+		var it []Item
+		for i := 0; i < nMacSpecs; i++ {
+			j := (i + 7) % nMacSpecs
+			it = append(it, after("root", "VerifC06_Dec", []int{i}, pc("VerifC06_Dec", j)))
+			if th(tier) {
+				it = append(it, after("root", "VerifC06_Enc", []int{i}, pc("VerifC06_Enc", j)), after("root", "VerifC06_Dec", []int{i}, pc("VerifC06_Enc", i)))
+			}
+		}
+		it = append(it, after("root", "VerifC06_CFListDec", []int{0}, pc("VerifC06_CFListDec", 0)), after("root", "VerifC06_CFListDec", []int{1}, pc("VerifC06_CFListDec", 0)))
+		if th(tier) {
+			it = append(it, after("root", "VerifC06_CFListDec", []int{1}, pc("VerifC06_CFListDec", 1))) // 128 x 128 paths, about a minute
+		}
+		return it
+	})
+	addItems("C07", func(tier string) []Item {
+		var it []Item
+		for i := 0; i < nMacSpecs; i++ {
+			it = append(it, after("root", "VerifC07_RoundTrip", []int{i}, pc("VerifC07_RoundTrip", (i+11)%nMacSpecs)))
+			if th(tier) {
+				it = append(it, after("root", "VerifC07_RoundTrip", []int{i}, pc("VerifC07_RoundTrip", i)))
+			}
+		}
+		it = append(it, after("root", "VerifC07_Seq", []int{0, 2, 4, -1}, pc("VerifC07_ProprietaryTwice", 2)))
+		it = append(it, after("root", "VerifC07_Seq", []int{1, 18, 20, -1}, pc("VerifC07_Seq", 0, 2, 4, -1)))
+		it = append(it, after("root", "VerifC07_Stream", []int{0, 2}, pc("VerifC07_Stream", 1, 2)))
+		return it
+	})
+	addItems("C09", func(tier string) []Item {
+		var it []Item
+		for _, l := range pick(tier, []int{0, 1, 2}, rng(0, 3)) {
+			it = append(it, after("root", "VerifC09_MAC", []int{l}, pc("VerifC09_MAC", 2)))
+		}
+		for _, pk := range []string{"clocksync", "multicastsetup", "fragmentation", "firmwaremanagement"} {
+			it = append(it, after(pk, "VerifC09_Commands", []int{0, 3}, pc("VerifC09_Commands", 1, 2)))
+			it = append(it, after(pk, "VerifC09_Commands", []int{1, 3}, pc("VerifC09_Commands", 1, 3)))
+		}
+		return it
+	})
+	addItems("C10", func(tier string) []Item {
+		var it []Item
+		for n := 0; n < 14; n++ {
+			it = append(it, after("band", "VerifC10_BandSharing", []int{n, 1}, pc("VerifHist_AllBands")))
+		}
+		return it
+	})
+	addItems("C14", func(tier string) []Item {
+		var it []Item
+		// (a plan after another plan squares the 256 paths of one plan: not done)
+		for _, n := range pick(tier, []int{0, 1, 4, 10}, rng(0, 13)) {
+			it = append(it, after("band", "VerifC14_Plan", []int{n, 0, 0, 0, 2, 0}, pc("VerifHist_AllBands")))
+		}
+		return it
+	})
+	addItems("C15", func(tier string) []Item {
+		var it []Item
+		for n := 0; n < 14; n++ {
+			it = append(it, after("band", "VerifC15_Sets", []int{n, 0, 0, 1, 0, 2}, pc("VerifHist_AllBands")))
+			it = append(it, after("band", "VerifC15_CFList", []int{n, 0, 0, 1, 3, 0, 2}, pc("VerifC15_CFList", n, 0, 0, 1, 6, 0, 0)))
+		}
+		return it
+	})
+	addItems("C16", func(tier string) []Item {
+		var it []Item
+		for cf := 0; cf <= 1; cf++ {
+			it = append(it, after("joinserver", "VerifC16_Join", []int{cf, 1, 1}, pc("VerifC16_Join", 1-cf, 1, 1)))
+			it = append(it, after("joinserver", "VerifC16_Join", []int{cf, 0, 1}, pc("VerifC16_Rejoin", 0, 1, 1, 0)))
+		}
+		return it
+	})
+	addItems("C18", func(tier string) []Item {
+		var it []Item
+		pairs := map[string][][]int{
+			"clocksync":          {{0, 0, 0}, {0, 1, 0}, {0, 2, 0}, {0, 3, 0}, {1, 0, 0}, {1, 1, 0}},
+			"multicastsetup":     {{0, 1, 0}, {0, 2, 0}, {1, 1, 0}, {1, 4, 1}, {1, 5, 0}, {0, 4, 0}},
+			"fragmentation":      {{0, 1, 0}, {0, 2, 0}, {1, 1, 0}, {1, 2, 0}},
+			"firmwaremanagement": {{0, 1, 0}, {0, 4, 1}, {1, 4, 0}, {1, 5, 0}, {0, 5, 0}},
+		}
+		for _, pk := range []string{"clocksync", "multicastsetup", "fragmentation", "firmwaremanagement"} {
+			l := pairs[pk]
+			for i, t := range l {
+				u := l[(i+1)%len(l)]
+				it = append(it, after(pk, "VerifC18_RoundTrip", t, pc("VerifC18_RoundTrip", u...)))
+			}
+		}
+		return it
+	})
 	addItems("C20", func(tier string) []Item {
 		var it []Item
 		fs := []string{"VerifC20_GPSRoundTrip", "VerifC20_GPSOffset", "VerifC20_GPSMonotone", "VerifC20_GPSDuration"}
